@@ -914,6 +914,10 @@ class Interp:
                         defaults[kw.arg] = d
                 if list(c.params)[:1] == ["self"] and names[:1] != ["self"]:
                     names = ["self"] + names  # staticmethod / protocol called through an instance
+                if names[:1] == ["self"] and "self" not in c.params:
+                    names = names[1:]  # constructor contract: the new object is the result
+                if a.vararg is not None:
+                    names = names + [p_ for p_ in c.params if p_ not in names]  # *args: positional order of the contract
                 return names, defaults, fi
             except extract.ExtractError:
                 pass
